@@ -64,6 +64,9 @@ var c05Frags = []string{
 
 const c05CoreN = 20
 
+// c05ScriptBodyFrags: what moves the standard's tokenizer between its script-data states.
+var c05ScriptBodyFrags = []string{"<!--", "-->", "<script>", "</script>", "<0", "<!", "<", "-", "@", "<script ", "</script ", "<scriptx>", "--!>", "</x>"}
+
 // numberMarkers replaces each '@' by a unique marker m<i>.
 func numberMarkers(in []byte) string {
 	var b strings.Builder
@@ -247,6 +250,19 @@ func judgeC05(v *spec.View, in, out string) (sig, what string, nontrivial bool) 
 			return sig, "text " + m + " from inside a script/style element of the input appears in the output", true
 		}
 	}
+	// the same question put to an independent transcription of the standard's script-data states (x/net's tokenizer,
+	// which both the sanitiser and the tree builder above use, leaves the "<!--" escaped state too early)
+	if body, ok := whatwgScriptBody(in); ok {
+		for _, m := range markersIn(body) {
+			if strings.Contains(out, m) {
+				sig := "body-text|standard-tokenizer-only"
+				if strings.Contains(body, "<!--") {
+					sig = "body-text|script-escaped-state-tokenizer-differential"
+				}
+				return sig, "text " + m + " from inside the script element of the input (as the HTML standard's tokenizer delimits it) appears in the output", true
+			}
+		}
+	}
 	return "", "", hasEl
 }
 
@@ -354,6 +370,14 @@ func runC05(c *run.Ctx) {
 			}
 		}
 	}
+	// script bodies that enter the escaped and double-escaped states of the standard's tokenizer
+	ke := 4
+	if !c.Quick() {
+		ke = 6
+	}
+	SeqsS(c, "c05esc", c05ScriptBodyFrags, 0, ke, func(body []byte, _ []int) {
+		evalOn([]string{"ugc", "strict", "c05-named"}, numberMarkers([]byte("@<script>"+string(body)+"</script>@</script><b>@</b>")))
+	})
 	// byte-level forms glued to the literal names
 	nb := 3
 	if !c.Quick() {
